@@ -75,8 +75,27 @@ class SigCollector(Collector):
         self.records.append((self.sig, self.sign * self.model.systems.timestep))
 
 
+class Swapper(System):
+    """runs LAST in a timestep (priority -5, after the collectors) and, at one timestep, replaces the collector 'rec' by a new
+    collector object of the same id that carries the records over and is due from the next timestep on: the batch must report
+    the records of the collector the model ends up with"""
+
+    def __init__(self, model, at, sig):
+        super().__init__("swapper", model, priority=-5)
+        self.at, self.sig = at, sig
+
+    def execute(self):
+        t = self.model.systems.timestep
+        if t == self.at:
+            old = self.model.systems["rec"]
+            self.model.systems.remove_system("rec")
+            new = SigCollector("rec", self.model, self.sig, 1, start=t + 1)
+            new.records.extend(old.records)
+            self.model.systems.add_system(new)
+
+
 class BatchModel(Model):
-    def __init__(self, a, b=0, stop=3, cost=0, fail_sig="", fail_where="ctor", fail_exc="injected", dt=None, slow_sig="", slow_ms=0):
+    def __init__(self, a, b=0, stop=3, cost=0, fail_sig="", fail_where="ctor", fail_exc="injected", dt=None, slow_sig="", slow_ms=0, swap_at=None):
         super().__init__()
         if slow_ms and slow_sig == f"a={a},b={b},stop={stop}":
             time.sleep(int(slow_ms) / 1000.0)          # one execution takes over a second while the others take milliseconds
@@ -93,6 +112,8 @@ class BatchModel(Model):
         self.systems.add_system(SigCollector("rec", self, sig, 1))
         self.systems.add_system(SigCollector("rec2", self, sig, -1))
         self.systems.add_system(SigCollector("pre", self, sig, 1, priority=20))     # runs BEFORE the finisher: sees timestep `stop` too
+        if swap_at is not None:
+            self.systems.add_system(Swapper(self, int(swap_at), sig))
 
 
 def values(v):
@@ -130,6 +151,8 @@ def _run_case(case):
     params = {"a": a, "b": b, "stop": stop, "cost": cost}
     if case.get("dt") is not None:
         params["dt"] = case["dt"]
+    if case.get("swap_at") is not None:
+        params["swap_at"] = int(case["swap_at"])
     if case.get("slow") is not None and combos:
         params["slow_sig"] = sigs[int(case["slow"]) % len(sigs)]
         params["slow_ms"] = max(0, min(int(case.get("slow_ms", 1300)), 2500))
@@ -245,6 +268,8 @@ def _run_case(case):
         labels.append("model-has-own-timestep-attribute")
     if case.get("slow") is not None:
         labels.append("one-execution-takes-over-a-second")
+    if case.get("swap_at") is not None:
+        labels.append("collector-object-replaced-mid-run")
     if max_ts is not None:
         labels.append("limit-below" if any(int(max_ts) < int(s) for _, _, s in combos) else "limit-at-or-above")
     if len(set(sigs)) < len(sigs):
@@ -285,7 +310,7 @@ def _small(maxp):
         "a": wone_of(small, small, st.integers(0, 3)),
         "b": wone_of(st.integers(0, 3), st.lists(st.integers(0, 2), min_size=1, max_size=2)),
         "stop": wone_of(st.integers(0, 6), st.integers(1, 6), st.lists(st.integers(0, 6), min_size=1, max_size=2)),
-        "cost": st.sampled_from([0, 0, 2, 4]), "dt": st.sampled_from([None, None, None, None, 0.25, 2, 100]), "positional": st.sampled_from([False, False, True]),
+        "cost": st.sampled_from([0, 0, 2, 4]), "dt": st.sampled_from([None, None, None, None, 0.25, 2, 100]), "positional": st.sampled_from([False, False, True]), "swap_at": st.sampled_from([None, None, None, 0, 1, 2]),
         "reps": st.integers(1, 3),
         "processes": wone_of(st.just(1), st.integers(2, maxp), st.integers(2, maxp), st.integers(2, 3)),
         "max_timesteps": wone_of(st.none(), st.integers(0, 8)),
